@@ -258,6 +258,11 @@ fn to_ir_axis(
 }
 
 fn ir_axes(font: &Font) -> Result<fontdrasil::types::Axes, Error> {
+    // No master, no axis values: there is nothing to compute a range from
+    if font.masters.is_empty() {
+        return Err(Error::NoDefaultMaster);
+    }
+
     // Every master should have a value for every axis
     for master in font.masters.iter() {
         if font.axes.len() != master.axes_values.len() {
@@ -752,6 +757,13 @@ mod tests {
         let dir = PathBuf::from("../resources/testdata");
         assert!(dir.is_dir(), "{dir:?} isn't a dir");
         dir
+    }
+
+    #[test]
+    fn font_without_masters_is_an_error_not_a_panic() {
+        let font = Font::load(&testdata_dir().join("glyphs2/Unicode-UnquotedHex.glyphs")).unwrap();
+        assert!(font.masters.is_empty());
+        assert!(FontInfo::try_from(font).is_err());
     }
 
     #[test]
